@@ -205,6 +205,14 @@ func (fv *FuncVC) instr(in ssa.Instruction) {
 		if arr, ok := x.X.Type().Underlying().(*types.Array); ok {
 			fv.oblige("index", x.X.Name(), and(le(intLit(0), i), lt(i, intLit(arr.Len()))), x.Pos(), "array index in range")
 		}
+		if a.Sort == SStr {
+			// s[i] on a string value
+			fv.oblige("index", fv.srcName(x.X), and(le(intLit(0), i), lt(i, stLen(a))), x.Pos(), "string index in range")
+			v := sel(fv.heap(fv.cur, "M", SInt), add(stPtr(a), i))
+			fv.define(x, v)
+			fv.assume(and(le(intLit(0), fv.val(x)), le(fv.val(x), intLit(255))))
+			break
+		}
 		fv.setVal(x, mk(elemSortOf(a.Sort), "select", a, i))
 	case *ssa.Convert:
 		fv.convert(x)
@@ -302,6 +310,10 @@ func (fv *FuncVC) doAlloc(a *ssa.Alloc) {
 			fv.assume(or(le(add(addr, intLit(max64(sz, 1))), o.addr), le(add(o.addr, intLit(max64(o.size, 1))), addr)))
 		}
 		fv.stackCells = append(fv.stackCells, stackCell{addr, sz})
+		// later allocations - also the address-taken locals of callees - lie above this cell
+		nb := fv.freshConst("g.brk", SInt)
+		fv.assumeHere(le(add(addr, intLit(max64(sz, 1))), nb))
+		fv.cur.ghost["$brk"] = nb
 	}
 	addr.T = a.Type()
 	fv.vals[a] = addr
